@@ -197,6 +197,10 @@ class Gen(object):
             attrs.append(self.tattr(self.ch(["State", "Initial Date", "Object Type", "Unique Identifier",
                                              "Certificate Type", "Contact Information", "Fresh", "Lease Time",
                                              "Cryptographic Parameters", "Activation Date"])))
+        if self.profile.get("template_uid") and self.dead and self.p(self.profile["template_uid"]):
+            # a client trying to choose the identifier of the new object: one that a destroyed object had
+            attrs.append({"name": "Unique Identifier", "index": None,
+                          "value": {"k": "text", "v": str(self.ch([d for d in self.dead if d is not None] or ["1"]))}})
         if self.p(0.15):
             r.shuffle(attrs)
         return {"tnames": 1 if self.p(0.02) else 0, "attrs": attrs}
